@@ -14,6 +14,7 @@ type GenOptions struct {
 	Foreign    bool // allow differences that forward updates of other sequences, and unknown channels
 	Faults     bool // allow transient failures of difference requests
 	Fresh      bool // allow channels without stored state (met during the run) and access hashes learnt late
+	Private    bool // channels become inaccessible (CHANNEL_PRIVATE: worker stops, channel forgotten) and accessible again
 	Users      bool // messages refer to users whose access hash may be unknown (the container is dropped, the difference fetched)
 	Seq        bool // number containers (seq / seq_start): they go through the seq box (gaps, duplicates, late arrivals)
 }
@@ -22,6 +23,7 @@ type GenOptions struct {
 // updates, qts updates, channel messages/updates and position-less updates, delivered with loss,
 // duplication, reordering, batching, forced recoveries, sliced differences.
 func Gen(r *hc.RNG, o GenOptions) (Scenario, map[int]bool) {
+	mayPriv := map[int64]bool{}
 	s := Scenario{P0: hc.Pick(r, 10, 1, 100, r.Range(1, 50)), Q0: hc.Pick(r, 0, 3, r.Range(0, 9)), C0: map[int64]int{}, Fresh: map[int64]bool{}, Late: map[int64]bool{}}
 	var chans []int64
 	for i := 0; i < o.Channels; i++ {
@@ -34,10 +36,13 @@ func Gen(r *hc.RNG, o GenOptions) (Scenario, map[int]bool) {
 		if o.Fresh && r.Chance(12) {
 			s.Late[c] = true // its access hash becomes known only with an action K (or never)
 		}
+		if o.Private && r.Chance(60) {
+			mayPriv[c] = true // may become inaccessible (and be forgotten) during the run
+		}
 	}
 	// which channels have a worker at this point of the schedule (extras are only attached to
 	// differences of those: a channel without a worker asks for none)
-	live, known := map[int64]bool{}, map[int64]bool{}
+	live, known, private := map[int64]bool{}, map[int64]bool{}, map[int64]bool{}
 	for _, c := range chans {
 		live[c] = !s.Fresh[c] && !s.Late[c]
 	}
@@ -125,8 +130,8 @@ func Gen(r *hc.RNG, o GenOptions) (Scenario, map[int]bool) {
 		for _, id := range ids {
 			// when a parked container is routed is the seq box's business: the harness predicts the
 			// position a channel is met at only for unnumbered pushes, so updates of channels that
-			// are not stored from the start with a known hash never travel in numbered containers
-			if e := s.Log[id-1]; s.Fresh[e.Chan] || s.Late[e.Chan] {
+			// are not stored from the start with a known hash, or may be forgotten, never travel in numbered containers
+			if e := s.Log[id-1]; s.Fresh[e.Chan] || s.Late[e.Chan] || mayPriv[e.Chan] {
 				plainOnly = true
 			}
 		}
@@ -259,6 +264,21 @@ func Gen(r *hc.RNG, o GenOptions) (Scenario, map[int]bool) {
 				touch(x)
 			}
 		}
+		if o.Private && len(chans) > 0 && r.Chance(7) {
+			c := hc.Pick(r, chans...)
+			if !mayPriv[c] {
+				// stays accessible
+			} else if private[c] {
+				s.Actions = append(s.Actions, Action{Op: "PUB", C: c})
+				private[c] = false
+			} else {
+				s.Actions = append(s.Actions, Action{Op: "PRIV", C: c})
+				private[c] = true
+				if r.Chance(70) { // the next difference of the channel finds out
+					s.Actions = append(s.Actions, Action{Op: "CT", C: c})
+				}
+			}
+		}
 		if o.TooLong && r.Chance(4) {
 			s.Actions = append(s.Actions, Action{Op: "TL"}, Action{Op: "T"})
 		}
@@ -278,6 +298,13 @@ func Gen(r *hc.RNG, o GenOptions) (Scenario, map[int]bool) {
 		}
 		if r.Chance(10) { // the gap timers fire (through the hook, no real waiting)
 			s.Actions = append(s.Actions, Action{Op: "F"})
+		}
+	}
+	for _, c := range chans { // most channels are accessible again in the end
+		if private[c] && r.Chance(70) {
+			s.Actions = append(s.Actions, Action{Op: "PUB", C: c})
+			private[c] = false
+			live[c] = false // (it may have been forgotten: meet it again below)
 		}
 	}
 	// a channel nobody has met so far is often met at the very end, through any one of its updates
